@@ -107,6 +107,11 @@ def gen(rng, ntempl=None, allow_anon=True, branchpoints=True, xta_common=False):
             M.system.append('P0_x')
     rng.shuffle(M.system)
     M.priorities = len(M.system) > 1 and rng.random() < 0.15
+    # a channel priority declaration, with the default entry at the head, in the middle or at the end
+    M.chanprio = ''
+    if M.chans and rng.random() < 0.2:
+        a, b = rng.choice(M.chans), rng.choice(M.chans)
+        M.chanprio = 'chan priority ' + rng.choice(['%s < default' % a, 'default < %s' % a, '%s < default < %s' % (a, b) if a != b else '%s < default' % a, '%s, %s < default' % (a, b) if a != b else 'default < %s' % a, '%s < %s' % (a, b) if a != b else '%s < default' % a]) + ';\n'
     return M
 
 
@@ -116,6 +121,7 @@ def oldify(M, rng):
     M.old = True
     M.processes = []
     M.priorities = False
+    M.chanprio = ''                      # the old syntax has no channel priorities
     for T in M.templates:
         T['params'] = []
         for l in T['locs']:
@@ -143,7 +149,7 @@ def ltext(M, kind, m):
 
 
 def global_decl(M):
-    d = 'clock x;\n' + ''.join('int %s;\n' % g for g in M.globals + M.shadowed) + ''.join('chan %s;\n' % c for c in M.chans)
+    d = 'clock x;\n' + ''.join('int %s;\n' % g for g in M.globals + M.shadowed) + ''.join('chan %s;\n' % c for c in M.chans) + getattr(M, 'chanprio', '')
     return d
 
 
